@@ -66,6 +66,9 @@ def _downgrade_opaque(prog: Program, res: Result) -> None:
         for q in f.context:
             if q in prog.functions:
                 reasons += prog.opaque_context(prog.functions[q])
+        if reasons and _standing(prog, f, reasons):
+            keep.append(f)
+            continue
         if reasons:
             res.unrecognised(f.rule, f.key[:120], f.where,
                              "the rule reported `" + f.msg[:160] + "`, but "
@@ -75,6 +78,41 @@ def _downgrade_opaque(prog: Program, res: Result) -> None:
         else:
             keep.append(f)
     res.findings = keep
+
+
+_DEFECTS: dict = {}
+
+
+def _standing(prog: Program, f, reasons: list[str]) -> bool:
+    """The only obstacle is a run-time cache outside the inventory, and that
+    cache has a decidable defect (sa/caches.py: key does not determine the
+    value / cached object modified and returned), or the rule is about state
+    kept between calls and the table *is* that state: the finding stands and
+    names the defect."""
+    from . import caches
+    tables = []
+    for r in set(reasons):
+        if not r.startswith("reads the table "):
+            return False
+        tables.append(r[len("reads the table "):])
+    notes = []
+    for q in tables:
+        key = (id(prog), q)
+        if key not in _DEFECTS:
+            _DEFECTS[key] = (caches.is_runtime_cache(prog, q),
+                             caches.cache_defects(prog, q))
+        runtime, defects = _DEFECTS[key]
+        if not runtime:
+            return False
+        if defects:
+            notes += defects
+        elif f.rule.endswith("-STATELESS"):
+            notes.append(f"`{q}` is written at run time")
+        else:
+            return False
+    f.msg += " {run-time cache outside the inventory: " + "; ".join(
+        notes[:2]) + "}"
+    return True
 
 
 def main(argv: list[str] | None = None) -> int:
